@@ -61,6 +61,24 @@ func TestVerifC16(t *testing.T) {
 	if only <= 0 {
 		cfg.EnumN = c16EnumCount
 		cfg.EnumAt = c16EnumAt
+		cfg.EnumLabels = func(tier string, i int) []string {
+			v := c16EnumAt(tier, i)
+			if tier == "thorough" {
+				return []string{"mode", "enumerated", "batch"}
+			}
+			l := []string{"mode", "enumerated", "stack", "nmsg"}
+			if len(v) < 4 {
+				return l[:len(v)]
+			}
+			for k := 0; k < v[3]; k++ {
+				l = append(l, "kind")
+			}
+			l = append(l, "nreads")
+			for k := 0; k <= v[4+v[3]]; k++ {
+				l = append(l, "read")
+			}
+			return append(l, "errv", "pace")
+		}
 	}
 	sim.Main(t, cfg)
 }
